@@ -475,6 +475,51 @@ fn import_web(src: &mut Src) -> String {
     out
 }
 
+
+const SC_TYPES: [&str; 9] = ["IA5String", "PrintableString", "NumericString", "VisibleString", "UTF8String", "BMPString", "UniversalString", "GeneralString", "Str-Alias"];
+const SC_ELEMS: [&str; 30] = [
+    "FROM (\"abc\")", "FROM (\"a\"..\"z\")", "FROM (\"\"..\"z\")", "FROM (\"a\"..\"\")", "FROM (\"\")", "FROM (\"\"..\"\")", "FROM (\"z\"..\"a\")", "FROM (\"ab\"..\"cd\")",
+    "FROM (\"a\"..\"f\" | \"0\"..\"9\")", "FROM (\"\u{2603}\"..\"\u{1f600}\")", "FROM (\"\u{e9}\")", "FROM (\"1,5\")", "FROM (\"0\"..\"9\" | \"\")", "FROM (ALL EXCEPT \"a\")",
+    "FROM (MIN..\"z\")", "FROM (\"a\"..MAX)", "FROM (Str-Alias)", "FROM (sv)", "FROM (sv..\"z\")", "FROM (empty..\"z\")", "SIZE (1..4)", "SIZE (0)", "SIZE (w)", "SIZE (MIN..MAX)",
+    "\"abc\"", "\"\"", "\"a\"..\"z\"", "\"\"..\"z\"", "Str-Alias", "PATTERN \"x\"",
+];
+
+/// character string types under element sets built from FROM / SIZE / single-value / range
+/// elements with degenerate ends (empty, several characters, inverted, outside the type's
+/// alphabet, given by reference), joined by every set operator, nested and serial
+fn string_constraint_module(src: &mut Src) -> String {
+    let mut s = header(src, "StrCon-Mod");
+    s.push_str("\nStr-Alias ::= IA5String (FROM (\"a\"..\"m\"))\nsv IA5String ::= \"k\"\nempty IA5String ::= \"\"\nw INTEGER ::= 3\n");
+    let n = 2 + src.pick(8);
+    let elem = |src: &mut Src| -> String {
+        let e = SC_ELEMS[src.pick(SC_ELEMS.len())];
+        if src.chance(15) { format!("({e})") } else { e.to_string() }
+    };
+    for i in 0..n {
+        let ty = SC_TYPES[src.pick(SC_TYPES.len())];
+        let k = 1 + src.weighted(&[3, 5, 2]);
+        let mut expr = elem(src);
+        for _ in 1..k {
+            let op = ["|", "^", "EXCEPT", "UNION", "INTERSECTION"][src.weighted(&[3, 5, 2, 1, 1])];
+            expr = format!("{expr} {op} {}", elem(src));
+        }
+        if src.chance(10) {
+            expr = format!("ALL EXCEPT {expr}");
+        }
+        if src.chance(15) {
+            expr.push_str(", ...");
+        }
+        let serial = if src.chance(20) { format!(" ({})", elem(src)) } else { String::new() };
+        match src.pick(4) {
+            0 => s.push_str(&format!("S{i} ::= SEQUENCE {{ f {ty} ({expr}){serial} OPTIONAL }}\n")),
+            1 => s.push_str(&format!("S{i} ::= SEQUENCE OF {ty} ({expr}){serial}\n")),
+            _ => s.push_str(&format!("S{i} ::= {ty} ({expr}){serial}\n")),
+        }
+    }
+    s.push_str("END\n");
+    s
+}
+
 fn make_jobs(seed: u64, n: usize, reals: &[(String, String)]) -> Vec<Job> {
     let mut drv = Driver::new(seed, 8, 2500);
     let streams: Vec<Vec<u32>> = drv.draw(n).iter().map(|t| t.current()).collect();
@@ -484,7 +529,7 @@ fn make_jobs(seed: u64, n: usize, reals: &[(String, String)]) -> Vec<Job> {
         .enumerate()
         .map(|(i, s)| {
             let mut src = Src::new(s);
-            let class = src.weighted(&[2, 3, 3, 3, 2, 1, 2, 3, 2]);
+            let class = src.weighted(&[2, 3, 3, 3, 2, 1, 2, 3, 2, 3]);
             // skip a few numbers so that the inner generators do not mirror the class choice
             for _ in 0..3 {
                 src.raw();
@@ -516,6 +561,7 @@ fn make_jobs(seed: u64, n: usize, reals: &[(String, String)]) -> Vec<Job> {
                 4 => Job { class: "exotic", text: exotic_module(&mut src) },
                 7 => Job { class: "type-value-mismatch", text: mismatch_module(&mut src) },
                 8 => Job { class: "import-web", text: import_web(&mut src) },
+                9 => Job { class: "string-constraint-algebra", text: string_constraint_module(&mut src) },
                 5 => {
                     // (malformed input nested deeper than ~25 levels took exponential time: finding
                     // F-exp-backtrack, repaired; the mutants nest up to 120 levels)
